@@ -386,6 +386,55 @@ pub fn add_align_pairs(u: &mut Universe, max: usize) {
     }
 }
 
+/// Pairs of definitions with the *same name* and a one-mutation difference, each rendered in its own anonymous
+/// const block: both have the same `core::any::type_name`, as a struct edited between two builds of a program
+/// would. (Anything keyed by the type's name instead of its structure confuses them.)
+pub fn add_twins(u: &mut Universe, src: &mut Src, n: usize) {
+    use crate::ty::Prim::*;
+    let prims = [U8, U16, U32, U64, I32, I64, F32, Bool, Char];
+    for k in 0..n {
+        let f = |src: &mut Src| Ty::Prim(prims[src.pick(prims.len())]);
+        let fields = vec![
+            ("a".to_string(), f(src)),
+            ("b".to_string(), if src.chance(1, 2) { Ty::vec(f(src)) } else { Ty::String }),
+            ("c".to_string(), f(src)),
+            ("d".to_string(), Ty::opt(f(src))),
+        ];
+        let zero = src.chance(1, 3);
+        let base = AdtDef {
+            name: "T".into(),
+            module: format!("twin{}a", k),
+            copy: if zero { CopyKind::Zero } else { CopyKind::DeepAttr },
+            reprs: if zero { vec!["C".into()] } else { vec![] },
+            params: vec![],
+            where_preds: vec![],
+            body: Body::Struct(Fields::Named(if zero { vec![fields[0].clone(), fields[2].clone(), ("e".to_string(), Ty::arr(f(src), 3))] } else { fields })),
+            mutant_of: None,
+            mutation: None,
+        };
+        let mut other = None;
+        for attempt in 0..8 {
+            let kind = (src.pick(8) + attempt) % 8; // never "type renamed" (8); 9 = identical copy handled below
+            let mut d = base.clone();
+            if let Some(what) = apply(u, &mut d, kind, src) {
+                d.mutation = Some(format!("same type name, {}", what));
+                other = Some(d);
+                break;
+            }
+        }
+        let Some(mut other) = other else { continue };
+        other.module = format!("twin{}b", k);
+        u.adts.push(base);
+        let ia = u.adts.len() - 1;
+        other.mutant_of = Some(ia);
+        u.adts.push(other);
+        let ib = u.adts.len() - 1;
+        u.subjects.push(Ty::adt(ia, vec![]));
+        u.subjects.push(Ty::adt(ib, vec![]));
+        u.pairs.push((u.subjects.len() - 2, u.subjects.len() - 1));
+    }
+}
+
 /// Near-miss variants of a built-in closed type (sequence kind, array length, tuple arity, same-size
 /// primitive, option/bound), each a valid closed type.
 pub fn builtin_near_misses(u: &Universe, t: &Ty) -> Vec<Ty> {
